@@ -7,11 +7,12 @@
 (* single-band amplifiers and multi-band amplifiers, each amplifier with its band(s) [lo, hi].                *)
 (*                                                                                                          *)
 (* Actions, at the grain of gnpy.topology.request.propagate:                                                 *)
-(*   Launch(list, p)  SpectralInformation construction (create_arbitrary_spectral_information,               *)
+(*   Launch(list)     SpectralInformation construction (create_arbitrary_spectral_information,               *)
 (*                    carriers_to_spectral_information): sort by frequency; reject when two neighbouring     *)
-(*                    slots overlap or a baud rate exceeds its slot                                          *)
-(*   Filter           filter_si: keep the channels whose slot lies inside a band of EVERY amplifier of the    *)
-(*                    path (utils.find_common_range + demux per common band + mux) - once, before the path   *)
+(*                    slots overlap or a baud rate exceeds its slot (the path plays no part in it)           *)
+(*   Filter(p)        filter_si, the first step that looks at the path: keep the channels whose slot lies     *)
+(*                    inside a band of EVERY amplifier of the path (utils.find_common_range + demux per       *)
+(*                    common band + mux of as many parts as the common band has) - once, before the path     *)
 (*   Cross            the next element: passive = nothing; Edfa = demux on its band (Edfa.__call__);         *)
 (*                    Multiband_amplifier = demux per band in configuration order, amplify, mux               *)
 (* Clauses: Survives, InFrequencyOrder, OwnAttributes, OrderIrrelevant, RejectOverlap,                       *)
@@ -48,23 +49,26 @@ CrossElement(s, e) == CASE e.kind = "passive" -> s
 -----------------------------------------------------------------------------
 Init == /\ input = <<>> /\ pid = 1 /\ pos = 0 /\ spec = <<>> /\ kept = <<>> /\ status = "idle"
 
-Launch(l, p) == /\ status = "idle"
-                /\ input' = l /\ pid' = p /\ pos' = 0 /\ kept' = <<>>
-                /\ LET out == LaunchOutcome(l) IN status' = out.status /\ spec' = out.spec
+Launch(l) == /\ status = "idle"
+             /\ input' = l /\ pos' = 0 /\ kept' = <<>>
+             /\ LET out == LaunchOutcome(l) IN status' = out.status /\ spec' = out.spec
+             /\ UNCHANGED pid
 
-Filter == /\ status = "launched"
-          /\ LET s == SelectSeq(spec, LAMBDA c : InCommon(c, Paths[pid]))
-             IN /\ spec' = s /\ kept' = s
-                /\ status' = IF s = <<>> THEN "NoChannel" ELSE "filtered"   \* nothing to propagate: refused (ValueError)
-          /\ UNCHANGED <<input, pid, pos>>
+Filter(p) == /\ status = "launched"
+             /\ pid' = p
+             /\ LET s == SelectSeq(spec, LAMBDA c : InCommon(c, Paths[p]))
+                IN /\ spec' = s /\ kept' = s
+                   /\ status' = IF s = <<>> THEN "NoChannel" ELSE "filtered"   \* nothing to propagate: refused (ValueError)
+             /\ UNCHANGED <<input, pos>>
 
 Cross == /\ status = "filtered" /\ pos < Len(Paths[pid])
          /\ spec' = CrossElement(spec, Paths[pid][pos + 1])
          /\ pos' = pos + 1
          /\ UNCHANGED <<input, pid, kept, status>>
 
-Next == \/ (status = "idle" /\ \E l \in LaunchLists : \E p \in 1..Len(Paths) : Launch(l, p))
-        \/ Filter \/ Cross
+Next == \/ (status = "idle" /\ \E l \in LaunchLists : Launch(l))
+        \/ (\E p \in 1..Len(Paths) : Filter(p))
+        \/ Cross
 Spec == Init /\ [][Next]_vars
 
 -----------------------------------------------------------------------------
